@@ -127,6 +127,7 @@ static int sc_misc(void) { int rc = 0; ARM();
     DISARM(); return rc; }
 
 static int run_scenario(const char* sc, const char* file, const char* tdmp) {
+    if (!strncmp(sc, "sa_", 3)) { setenv("CARQUET_VERIF_ARENA_BLOCK", "48", 1); sc += 3; }   /* hook: arenas grow 48 bytes at a time, so every arena allocation site meets "the arena cannot grow" */
     if (!strcmp(sc, "schema")) return sc_schema();
     if (!strcmp(sc, "schemaon")) return sc_schema_on();
     if (!strncmp(sc, "write", 5)) { int codec = atoi(sc + 5); return sc_write(T_CODECS[codec % 5], 0); }
